@@ -195,6 +195,19 @@ int EGLPNUM_TYPENAME_ILLbasis_load (
 				rval = 1;
 				goto CLEANUP;
 			}
+			{
+				/* a nonbasic column can only sit at a bound it has: the bounds may have been
+				 * changed after the basis was stored (or the basis comes from the user) */
+				int haslo = EGLPNUM_TYPENAME_EGlpNumIsNeqq (lp->O->lower[j], EGLPNUM_TYPENAME_ILL_MINDOUBLE);
+				int hasup = EGLPNUM_TYPENAME_EGlpNumIsNeqq (lp->O->upper[j], EGLPNUM_TYPENAME_ILL_MAXDOUBLE);
+
+				if (lp->vstat[j] == STAT_LOWER && !haslo)
+					lp->vstat[j] = hasup ? STAT_UPPER : STAT_ZERO;
+				else if (lp->vstat[j] == STAT_UPPER && !hasup)
+					lp->vstat[j] = haslo ? STAT_LOWER : STAT_ZERO;
+				else if (lp->vstat[j] == STAT_ZERO && (haslo || hasup))
+					lp->vstat[j] = haslo ? STAT_LOWER : STAT_UPPER;
+			}
 		}
 	}
 
